@@ -25,6 +25,7 @@ type program struct {
 	noEarly  bool     // macro programs: code using a macro is never read/evaluated before the macro exists
 	thorough bool     // only in the thorough tier
 	feats    []string // hit counters
+	redefAll bool     // additional modes redefall / compredefall: every definition that has an alternative is redefined, in order
 }
 
 // ctx wraps a call expression that returns a number.
@@ -536,6 +537,36 @@ func addRebind(out *[]*program) {
 	}
 }
 
+// addKeys: keyword parameters. f1 calls f2 with keyword arguments in every context; f2's keys have defaults. The
+// orders and the early modes give the forward reference (the call site exists, and is called, before f2 and its
+// key names do); the redefinitions change the SET of key names: alt of f2 adds a key and drops one, alt of f1 passes
+// the new key (mode redefall redefines both: nothing of the earlier lambda list - a cached key set, a cached binding
+// plan - may survive), alt of f2 alone keeps the call valid (the dropped key is not passed by f1's second variant).
+func addKeys(out *[]*program) {
+	for ci := range ctxs {
+		c := &ctxs[ci]
+		if c.name == "seq" {
+			continue
+		}
+		for variant := 0; variant < 2; variant++ {
+			// variant 0: both keys passed, in lambda-list order; variant 1: one key passed, the other takes its default
+			args := []string{"(tr 'f1a1 (+ x 1))", ":pb", "(tr 'f1kb (* x 2))", ":pc", "(tr 'f1kc x)"}
+			altArgs := []string{"(tr 'f1a1 (+ x 1))", ":pd", "(tr 'f1kd (* x 3))", ":pb", "(tr 'f1kb (* x 2))"}
+			if variant == 1 {
+				args = []string{"(tr 'f1a1 (+ x 1))", ":pc", "(tr 'f1kc x)"}
+				altArgs = []string{"(tr 'f1a1 (+ x 1))", ":pd", "(tr 'f1kd (* x 3))"}
+			}
+			*out = append(*out, &program{fam: "keys", id: fmt.Sprintf("keys:%s:%d", c.name, variant), thorough: !c.quick,
+				feats: []string{"keyword-arguments"}, redefAll: true,
+				defs: []string{"(defun @f1 (x) " + callExpr(c, 2, args) + ")",
+					"(defun @f2 (pa &key (pb 60) (pc 70)) (tr 'leaf (+ (* 10000 pa) (* 100 pb) pc)))"},
+				alts: []string{"(defun @f1 (x) (+ 70000 " + callExpr(c, 2, altArgs) + "))",
+					"(defun @f2 (pa &key (pd 5) (pb 61) (pc 71)) (tr 'leaf-v2 (+ (* 1000000 pd) (* 10000 pa) (* 100 pb) pc)))"},
+				main: "(@f1 3)"})
+		}
+	}
+}
+
 // nestedCtxs: every context that wraps a form (14) around every context (19): the call sits two levels deep.
 func nestedCtxs() (out []*ctxDef) {
 	for oi := range ctxs {
@@ -639,6 +670,7 @@ func allPrograms() []*program {
 		addClosures(&progList)
 		addData(&progList)
 		addRebind(&progList)
+		addKeys(&progList)
 		addNested(&progList)
 		progByID = map[string]*program{}
 		for _, p := range progList {
